@@ -8,7 +8,7 @@ CONSTANTS
   Statuses = {200, 404}
   Unassigned = {}
   NCallers = 3
-  ConcCtxs = {"plain", "span"}
+  ConcCtxs = {"nil", "plain", "span"}
   ConcEnds = {"params", "transport", "ok"}
   ConcStatuses = {200, 404}
 INVARIANTS InvProp InvOwn InvSpans InvQuiescent InvNoRace
